@@ -355,6 +355,11 @@ class _Beam(_IModel):
         u = simu._Get_u_n(simu.problemType, asCsrMatrix=True)
         integral = (u.T @ f)[0, 0]
         kappa = bending_inertia**2 / (section.area * integral)
+
+        # the simulation was only needed here: the section must not keep it as an observer
+        # (it would be kept alive, notified and saved along with the beam)
+        section._Remove_observer(simu)
+
         return kappa
 
 
